@@ -140,15 +140,37 @@ def check_raw_layout(prog, rep):
             elif call.name in ("extend", "extend_from_slice"):
                 src = call.args[1]
                 v = I_.read(s, src.place) if isinstance(src, RefV) else src
+                if isinstance(v, SliceV) and isinstance(v.base, tuple) and v.base[0] == "arr" and v.off.is_const() and v.off.c == 0:
+                    av_ = I_.read(s, v.base[1])       # the whole of a local array: its elements, read while the frame is alive
+                    if isinstance(av_, OpaqueV) and av_.get("array_len") is not None and v.len.is_const() and v.len.c == av_.get("array_len"):
+                        v = av_
                 seq.append(("extend", v))
         I.call_hooks.append(hook)
         I, res = run(prog, b, args=[a0, buf], st=st, I=I)
         report_obligations(rep, "C01.2", I)
-        ok = len(seq) == 3 and seq[0] == ("push", fs[names.index("ver_type_tkl")]) and seq[1] == ("push", fs[names.index("code")])
-        if ok:
-            v = seq[2][1]
+        # the bytes emitted, one item per byte, whatever mixture of push / extend(array) / extend(to_be_bytes) wrote them
+        mid_f = fs[names.index("message_id")]
+        flat = []
+        for k_, v in seq:
+            if k_ == "push":
+                flat.append(v)
+                continue
             bo = v.get("bytes_of") if isinstance(v, OpaqueV) else None
-            ok = seq[2][0] == "extend" and bo is not None and bo[0] == "to_be_bytes" and bo[1] == fs[names.index("message_id")]
+            el = v.get("elems") if isinstance(v, OpaqueV) else None
+            if bo is not None and bo[0] == "to_be_bytes" and bo[1] == mid_f:
+                flat += [("be", 0), ("be", 1)]
+            elif isinstance(el, StructV):
+                flat += list(el.fields)
+            else:
+                flat.append(("?", repr(v)[:40]))
+
+        def is_be(x, k):
+            if x == ("be", k):
+                return True
+            sg_ = mid_f.aff.single() if isinstance(mid_f, IntV) else None
+            return isinstance(x, IntV) and x.bits is not None and sg_ is not None and len(x.bits) == 8 \
+                and all(b == ("b", sg_[0], (1 - k) * 8 + i) for i, b in enumerate(x.bits))
+        ok = len(flat) == 4 and flat[0] == fs[names.index("ver_type_tkl")] and flat[1] == fs[names.index("code")] and is_be(flat[2], 0) and is_be(flat[3], 1)
         rep.ob("C01.2", "serialize_into", ok,
                "serialize_into does not emit ver_type_tkl, code, then the message id in network byte order (sequence: %s)" % [(k, repr(v)[:40]) for k, v in seq],
                {"file": b["span"]["f"], "line": b["span"]["l"], "fn": b["path"]})
